@@ -27,6 +27,11 @@ MUST_REACH = ["AbstractVector.assemble"]
 BUDGET_S = {"quick": 900, "thorough": 7200}
 
 
+# Lee et al. 2015, supplementary figure S19: BsmBI site, N, product overhang ..GG, then TCTC (completing a BsaI site), N, the type-specific
+# overhang, the template (any length; the property asks for >= 2 nt), the other type-specific overhang, N, GA + GACC + N + the reverse BsmBI site
+YTK_PRODUCT_LAYOUT = "CGTCTCN(NNGG)(TCTCNNNNNN*?NNNNNGA)(GACC)NGAGACG"
+
+
 def triples():
     from moclo.kits import ytk, cidar, ecoflex, moclo as mk
 
@@ -183,8 +188,10 @@ def one_triple(ctx, name, Vc, Mc, Nc, rng):
     site, n_, k = geom
     if name == "ytk-entry":
         # module first: the vector's overhangs follow from the product
+        tiny = rng.randrange(4) == 0        # the smallest template the property admits (2 nt), one case in four
         for _ in range(200):
-            ms = gen.instance(rng, Mc.structure(), run_max=30, run_min=2, run_filter=lambda t: not nsites(t, enz, False) and not nsites(t, nenz, False)) + sitefree(rng, rng.randint(0, 12), [enz, nenz])
+            # (instances of the published layout, written down in YTK_PRODUCT_LAYOUT - not of whatever the class says today)
+            ms = gen.instance(rng, YTK_PRODUCT_LAYOUT, run_max=2 if tiny else 30, run_min=2, run_filter=lambda t: not nsites(t, enz, False) and not nsites(t, nenz, False)) + sitefree(rng, rng.randint(0, 12), [enz, nenz])
             if nsites(ms, enz) == 2:
                 break
         else:
@@ -332,6 +339,9 @@ def two_level(ctx, kit, rng):
                          "refs": [{"title": "Paper %d" % x, "authors": "A", "journal": "J %d" % x} for x in range(2)],
                          "features": [{"type": "CDS", "parts": [[ti, ti + len(t), 1]], "quals": {"uid": ["entry%d.cds" % j], "citation": ["[2]"]}}]}
                 erec = gen.make_record(espec) if j % 2 == 0 or kit == "ecoflex" else rec(sm, "entry%d" % j)
+                if (len(sm) + j) % 2:
+                    # the entry plasmid is stored with its origin inside the insert (rotated by the library)
+                    erec = erec >> (len(sm) - (ti + max(1, len(t) // 2)))
                 vent1, ment1 = V1(rec(sv, "cv%d" % j)), M1(erec)
                 p = assemble(vent1, [ment1])   # default id/name: "assembly"
                 # the same entry and vector objects serve a second transcription unit: the same call again must give the same plasmid
